@@ -460,7 +460,7 @@ def shards(tier: str, seed: int) -> list[dict]:
         sel = seed % 18
         p, o = sel // 6, sel % 6
         for part in range(64):
-            out.append({"mode": "graphs", "stratum": st["name"], "p": p, "o": o, "part": part, "parts": 64, "sample_stride": 16})
+            out.append({"mode": "graphs", "stratum": st["name"], "p": p, "o": o, "part": part, "parts": 64, "sample_stride": 48})
     out.append({"mode": "chains"})
     n_o, per_o = (8, 150) if tier == "quick" else (32, 1500)
     out += [{"mode": "ops", "seed": seed * 1000 + 700 + i, "n": per_o} for i in range(n_o)]
